@@ -445,6 +445,8 @@ int kalign_arr_to_msa(char** input_sequences, int* len, int numseq,struct msa** 
         msa->numseq = numseq;
         msa->num_profiles = 0;
         msa->L = ALPHA_UNDEFINED;
+        msa->biotype = ALN_BIOTYPE_UNDEF;
+        msa->alnlen = 0;
         msa->aligned = 0;
         msa->plen = NULL;
         msa->sip = NULL;
@@ -469,6 +471,8 @@ int kalign_arr_to_msa(char** input_sequences, int* len, int numseq,struct msa** 
                 seq->alloc_len = len[i]+1;
 
                 MMALLOC(seq->name, sizeof(char)* MSA_NAME_LEN);
+                snprintf(seq->name, MSA_NAME_LEN, "SEQ%d", i+1);
+                seq->rank = i;
 
                 MMALLOC(seq->seq, sizeof(char) * seq->alloc_len);
                 MMALLOC(seq->s, sizeof(uint8_t) * seq->alloc_len);
